@@ -857,13 +857,56 @@ def c07(ctx):
         ctx.count("positive_controls_flagged", seen)
         if seen != len(ctl):
             ctx.inconclusive.append("positive control (early-exit compare of a secret buffer) was flagged in %d of %d configurations" % (seen, len(ctl)))
+    # ---- monitor B: trace equivalence under lackey on concrete executions
+    if not ctx.replay:
+        from . import lackey
+        from concurrent.futures import ThreadPoolExecutor
+        import random as _random
+        tcfgs = cfgs[:1] if not ctx.thorough else cfgs
+        for tag, lib, cc in tcfgs:
+            exe = os.path.join(ctx.scratch, "ct_trace-" + tag.split("(")[0])
+            ctx.sh(["gcc", "-O1", "-g", "-no-pie", "-I" + REPO + "/src", VERIF + "/harness/ct_trace.c", lib["static"], "-o", exe])
+            nsh = int(ctx.sh([exe, "count"]).stdout.decode().strip())
+            b, e = lackey.marker_addrs(exe)
+            if b is None or e is None:
+                raise core.Inconclusive("ct_trace markers not found")
+            shapes = list(range(nsh)) if ctx.thorough else list(range(ctx.seed % 4, nsh, 4))
+            rnd = _random.Random(ctx.seed * 7919 + 17)
+            secrets = [bytes(rnd.getrandbits(8) for _ in range(256)) for _ in range(2)] + [bytes([0xFF]) * 256, bytes(256)]
+            nsec = 4 if ctx.thorough else 3
+
+            def group(sh):
+                wd = os.path.join(ctx.scratch, "lk-%s-%d" % (tag.split("(")[0], sh))
+                return sh, [lackey.trace_digest(exe, sh, wd, secrets[i], b, e) for i in range(nsec)]
+            with ThreadPoolExecutor(NCPU) as ex:
+                groups = list(ex.map(group, shapes + [-1]))
+            for sh, ds in groups:
+                if any(d[0] is None for d in ds) or ds[0][1] < 50:
+                    ctx.inconclusive.append("lackey trace for shape %d (%s) could not be recorded" % (sh, tag))
+                    continue
+                same = len(set(d[0] for d in ds)) == 1
+                if sh == -1:
+                    ctx.count("trace_positive_controls_seen_differing", 0 if same else 1)
+                    if same:
+                        ctx.inconclusive.append("trace positive control (early-exit compare) produced identical traces in %s: monitor B is blind" % tag)
+                    continue
+                ctx.count("trace_groups_compared", 1)
+                ctx.count("trace_lines_compared", sum(d[1] for d in ds))
+                ctx.count("evaluations", 1)
+                ctx.add_classes([("trace", tag, sh)])
+                if not same:
+                    ctx.violation("trace-differs-between-secrets:shape-%d" % sh,
+                                  {"build": "lackey:" + tag, "detail": "shape %d: instruction/address trace between the markers differs for different secret bytes "
+                                   "(lines per run: %s)" % (sh, [d[1] for d in ds])})
+                elif len(ctx.samples) < 12 and sh % 23 == 0:
+                    ctx.samples.append({"h": "lackey-trace", "config": tag, "shape": sh, "secrets": nsec, "trace_lines_per_run": ds[0][1], "identical": True})
     ctx.rule = ("public shapes: 12 AEAD/SIV entry points x adlen,mlen in {0,1,2,3,4,5,8,17} x verdict {accept, reject with the wrong tag byte at each index 0..7, "
                 "reject via body}; check_tag directly for every differing byte index; hash lengths "
                 "{0,1,15,16,17,31,32,33,100} x chunkings {one-shot,1,5,11,16}; HMAC key lengths {0,1,31,32,63,64,65,100} one-shot/streamed; HKDF outlen {1,32,33,100,8160} "
                 "one-shot/incremental; PBKDF2 counts {0,1,2,3,10} x outlen {1,32,33,70}; PRNG init with full/short/zero delivery, generate {1,32,33,100,1100 (automatic "
                 "reseed)}, feed, reseed, set-limit. Secrets (keys, plaintexts, passwords, IKM, entropy bytes as delivered in the callback, fed data) are marked undefined; "
                 "memcheck (--expensive-definedness-checks) reports any branch / address / syscall parameter depending on them; a report with a library frame is a "
-                "violation. Configurations: the cmake Release objects (gcc -O3), gcc -O2, clang -O2, clang -O3. Positive control per configuration. class = shape.")
+                "violation. Configurations: the cmake Release objects (gcc -O3), gcc -O2, clang -O2, clang -O3. Positive control per configuration. Monitor B: 95 shapes (every 4th in quick) each run under lackey with 3-4 different secret files (random, all-ones, all-zero) with ASLR off; the full instruction-address and data-address trace between two markers must be identical; an early-exit control must differ. class = shape.")
     ctx.exhaustive = False
     ctx.assumptions += ["valgrind's definedness propagation is trusted as taint tracking (under-taints through some vector idioms are possible)",
                         "instruction-latency channels are invisible; only control flow and addresses are decided, as the property is worded",
